@@ -100,4 +100,27 @@ theorem invAug_isSome_iff (n : Nat) (M : Mat) (hn : 1 ≤ n ∧ n ≤ 3) :
   rw [if_neg (by omega)]
   by_cases hd : det n M = 0 <;> simp [hd]
 
+/-- Every coordinate object `mkAffine` constructs is well formed. -/
+theorem mkAffine_wf (M : Mat) (c : Coord) (h : mkAffine M = .ok c) : c.wf = true := by
+  unfold mkAffine at h
+  by_cases h0 : M.length = 0
+  · simp [h0] at h
+  simp only [h0, if_false] at h
+  by_cases hsq : isSquare (M.length - 1) M = true
+  · by_cases hlr : lastRowOk (M.length - 1) M = true
+    · simp only [hsq, hlr, Bool.not_true, Bool.false_eq_true, if_false] at h
+      by_cases hn : M.length - 1 = 0 ∨ 3 < M.length - 1
+      · simp [hn] at h
+      · simp only [hn, if_false] at h
+        cases hi : invAug (M.length - 1) M with
+        | none => rw [hi] at h; cases h
+        | some inv =>
+          rw [hi] at h
+          simp only [Except.ok.injEq] at h
+          subst h
+          simp only [Coord.wf, Bool.and_eq_true]
+          exact ⟨⟨hsq, hlr⟩, invAug_isInv _ M inv hlr hi⟩
+    · simp [hsq, hlr] at h
+  · simp [hsq] at h
+
 end GlueVerif.Lemmas.Coords
